@@ -137,11 +137,8 @@ def _bind(helper: ast.FunctionDef, call: ast.Call, recv: Optional[ast.AST], kind
     return binds
 
 
-_IN_CLASS: Dict[int, bool] = {}
-
-
 def helper_in_class(helper) -> bool:
-    return _IN_CLASS.get(id(helper), False)
+    return bool(getattr(helper, "_mdsa_in_class", False))
 
 
 def instantiate(helper: ast.FunctionDef, binds: Dict[str, ast.AST], tag: str) -> Tuple[List[ast.stmt], Optional[ast.AST]]:
@@ -188,7 +185,7 @@ class Inliner:
             sh = helper_shape(fi.node)
             if sh is None:
                 continue
-            _IN_CLASS[id(fi.node)] = fi.cls is not None and fi.parent is None
+            fi.node._mdsa_in_class = fi.cls is not None and fi.parent is None
             if self._calls_itself(fi):
                 continue
             self.helpers[q] = fi
